@@ -7,6 +7,7 @@
 -/
 import XotModel.Model.Parse
 import XotModel.Model.Valid
+import XotModel.Lemmas.ParseSpans
 
 namespace XotModel
 
@@ -15,7 +16,12 @@ namespace XotModel
 theorem run_append (pre : List Token) : ∀ {b b1 : Builder} (rest : List Token) (lexErr : Option Nat),
     b.run pre none = .ok b1 → b.run (pre ++ rest) lexErr = b1.run rest lexErr := by
   induction pre with
-  | nil => intro b b1 rest lexErr h; simp only [Builder.run, Step.ok.injEq] at h; subst h; rfl
+  | nil =>
+    intro b b1 rest lexErr h
+    simp only [Builder.run] at h
+    split at h
+    · cases h
+    · simp only [Step.ok.injEq] at h; subst h; rfl
   | cons t ts ih =>
     intro b b1 rest lexErr h
     simp only [Builder.run, List.cons_append] at h ⊢
@@ -175,38 +181,66 @@ def trimLeft (s : Str) : Str := s.dropWhile (fun c => c == ' ')
     sequences of spaces by a single space. -/
 def xmlIdSpec (s : Str) : Str := collapseSpaces false (trimLeft (trimLeft s).reverse).reverse
 
-theorem trimLeft_of_head {s : Str} (h : s.head? ≠ some ' ') : trimLeft s = s := by
-  cases s with
+theorem trimSpacesStart_eq (s : Str) : trimSpacesStart s = trimLeft s := by
+  induction s with
   | nil => rfl
-  | cons c cs =>
-    have : (c == ' ') = false := by
-      have : c ≠ ' ' := by intro hc; subst hc; simp at h
-      simpa using this
-    simp [trimLeft, List.dropWhile, this]
+  | cons c cs ih =>
+    by_cases hc : c = ' '
+    · subst hc
+      simp only [trimSpacesStart, trimLeft, List.dropWhile, beq_self_eq_true]
+      exact ih
+    · have hb : (c == ' ') = false := by simpa using hc
+      have h1 : trimSpacesStart (c :: cs) = c :: cs := by
+        unfold trimSpacesStart
+        split
+        · rename_i r heq; simp only [List.cons.injEq] at heq; exact absurd heq.1 hc
+        · rfl
+      rw [h1]
+      simp [trimLeft, List.dropWhile, hb]
 
-theorem trimLeft_stripOne {s : Str} (h : (stripOnePrefix s).head? ≠ some ' ') :
-    trimLeft s = stripOnePrefix s := by
-  by_cases hs : ∃ r, s = ' ' :: r
-  · obtain ⟨r, rfl⟩ := hs
-    simp only [stripOnePrefix] at h ⊢
-    have := trimLeft_of_head h
-    simpa [trimLeft, List.dropWhile] using this
-  · have he : stripOnePrefix s = s := by
-      unfold stripOnePrefix
-      split
-      · rename_i r; exact absurd ⟨r, rfl⟩ hs
-      · rfl
-    rw [he] at h ⊢
-    exact trimLeft_of_head h
+/-- `normalize_xml_id` is the normalisation of the xml:id specification. -/
+theorem normalizeXmlId_spec (s : Str) : normalizeXmlId s = xmlIdSpec s := by
+  unfold normalizeXmlId xmlIdSpec trimSpaces
+  rw [trimSpacesStart_eq, trimSpacesStart_eq]
 
-/-- `normalize_xml_id` agrees with the specification when at most one space stands at either end. -/
-theorem normalizeXmlId_partial (s : Str)
-    (h1 : (stripOnePrefix s).head? ≠ some ' ')
-    (h2 : (stripOnePrefix (stripOnePrefix s).reverse).head? ≠ some ' ') :
-    normalizeXmlId s = xmlIdSpec s := by
-  unfold normalizeXmlId xmlIdSpec stripOneSuffix
-  rw [trimLeft_stripOne h1, trimLeft_stripOne h2]
+/-! ### References decode to XML characters only -/
 
+theorem charOfNat?_toNat {n : Nat} {c : Char} (h : charOfNat? n = some c) : c.toNat = n := by
+  unfold charOfNat? at h
+  split at h
+  · simp only [Option.some.injEq] at h
+    subst h
+    simp [Char.toNat, Char.ofNatAux]
+  · cases h
+
+theorem named_are_xml : ∀ p ∈ Gen.namedEntities, isXmlCharCode p.2.toNat = true := by decide
+
+theorem decodeEntity_xmlChar {ent : Str} {c : Char} (h : decodeEntity ent = some c) : isXmlCharCode c.toNat = true := by
+  have hx : ∀ n, xmlCharOfNat? n = some c → isXmlCharCode c.toNat = true := by
+    intro n hn
+    unfold xmlCharOfNat? at hn
+    split at hn
+    · rename_i hok
+      rw [charOfNat?_toNat hn]; exact hok
+    · cases hn
+  unfold decodeEntity at h
+  split at h
+  · split at h
+    · cases h
+    · cases hp : parseU32 16 _ with
+      | none => rw [hp] at h; cases h
+      | some n => rw [hp] at h; exact hx n h
+    · cases hp : parseU32 10 _ with
+      | none => rw [hp] at h; cases h
+      | some n => rw [hp] at h; exact hx n h
+  · unfold namedEntity at h
+    exact named_are_xml (ent, c) (lookup_mem h)
+
+theorem decodeEntity_signed (rest : Str) :
+    decodeEntity ('#' :: '+' :: rest) = none ∧ decodeEntity ('#' :: 'x' :: '+' :: rest) = none := by
+  constructor
+  · simp [decodeEntity, parseU32, parseDigits, digitVal]
+  · simp [decodeEntity, parseU32, parseDigits, digitVal]
 /-! ### Text merging and name resolution -/
 
 /-- Two consecutive pieces of character data give the same node as their concatenation. -/
